@@ -61,6 +61,8 @@ OUTCOMES = {
     "body-reset": att(head=hd(cl=9), body=3, after="reset"),
     "body-intr": att(head=hd(cl=9), body=3, after="intr"),
     "stray": att(head=hd(), body=5, stray=7),
+    "ok-chunked": att(head=hd(cl=None), body=5, chunks=[3, 2], trailers=[4]),
+    "chunked-held": att(head=hd(cl=None), body=5, chunks=[3, 2], trailers=[4, 9], hold=8),
     "302": att(head=hd(302, loc=True), body=2),
     "302-close": att(head=hd(302, close=True, loc=True), body=2, after="fin"),
     "500": att(head=hd(500), body=3),
@@ -209,13 +211,16 @@ def build_reply(rid: int, j: int, a: dict, method: str):
     if h["ra"]:
         lines.append("Retry-After: 0")
     head = ("\r\n".join(lines) + "\r\n\r\n").encode()
-    tok = "%d:%d:%s:%d:%d" % (h["status"], int(h["close"]), "~" if cl is None else str(cl), int(h["loc"]), int(h["ra"]))
+    tok = "%d:%d:%s:%d:%d:%d" % (h["status"], int(h["close"]), "~" if cl is None else str(cl), int(h["loc"]), int(h["ra"]),
+                                 int(is_chunked(a)))
     return head, body, stray_bytes(a["stray"]), tok
 
 
 def attempt_token(rid, j, a, method):
     head, body, stray, tok = build_reply(rid, j, a, method)
-    return ",".join([a["connect"], a["send"], tok, str(max(len(head), 1)), enc(body), enc(stray), a["after"], str(a["seg"])])
+    trailers = [len(t) for t in trailer_lines(a)]
+    return ",".join([a["connect"], a["send"], tok, str(max(len(head), 1)), enc(body), enc(stray), a["after"], str(a["seg"]),
+                     enc(bytes(a.get("chunks") or [])), enc(bytes(trailers)), str(a.get("hold", 0))])
 
 
 _CTX = []
@@ -524,7 +529,7 @@ def run_history(case, res, check_c01=True, check_c03=False, pid="C01"):
     cfg = case["cfg"]
     w = World(cfg)
     lines, out = [], []
-    modelled = cfg["proxy"] in MODELLED and not uses_extended(case)
+    modelled = cfg["proxy"] in MODELLED
     lines.append("new %d %d %d" % (cfg["maxsize"], int(cfg["block"]), int(cfg["proxy"] == "forward")))
     out.append("ok")
     failures = []
@@ -766,7 +771,8 @@ class C01(Prop):
     id = "C01"
     model = "pool"
     rule = ("histories of requests on one pool: per ATTEMPT one outcome of the alphabet {2xx/204/3xx/5xx keep-alive or "
-            "close, short body then silence/EOF/reset/interrupt, stray bytes, connect refused/timeout/name-resolution/"
+            "close, short body then silence/EOF/reset/interrupt, stray bytes, chunked reply (complete / trailer section "
+            "held back), connect refused/timeout/name-resolution/"
             "interrupt, send EPIPE/ECONNRESET/EIO/interrupt, receive timeout/reset/EOF/garbage/interrupt} x "
             "maxsize/block x retries/preload_content/release_conn x direct/forwarding/tunnelling pool x disposal "
             "{read all, read k, read k+release, release, drain, close, with, drop+gc, stream}; quick: every 1-request "
@@ -810,7 +816,8 @@ class C01(Prop):
                         yield {"cfg": cfg, "ops": ops, "kind": "exh-redirect"}
         # 2. the disposal x request-configuration matrix on the plain outcomes
         for cfg in CONFIGS_QUICK:
-            for a in ("ok", "ok-close", "ok-untilclose", "ok-big", "short-silent", "short-fin", "stray", "204", "body-intr"):
+            for a in ("ok", "ok-close", "ok-untilclose", "ok-big", "short-silent", "short-fin", "stray", "204", "body-intr",
+                      "ok-chunked", "chunked-held"):
                 for rc in (REQCFGS if deep else REQCFGS[1:5]):
                     for d in DISPOSALS:
                         ops = [dict(op="req", script=[a, BENIGN, BENIGN], **rc), dict(op="disp", rid=0, how=d),
